@@ -36,6 +36,9 @@ var wordPool = []struct {
 	val  interface{}
 }{
 	{"a", "a"}, {"b", "b"}, {"foo", "foo"}, {"x y", "x y"}, {"é", "é"}, {"a.b", "a.b"}, {"a-b", "a-b"}, {"C\\d", "C\\d"}, {"$v", "$v"},
+	// non-ASCII words, among them some whose LAST UTF-8 byte is 0x85 / 0xA0 (NEL / NBSP when read as a byte) and
+	// words that contain real Unicode spaces inside
+	{"voilà", "voilà"}, {"Å", "Å"}, {"àà", "àà"}, {"日本", "日本"}, {"x\u00a0y", "x\u00a0y"}, {"€", "€"}, {"ą", "ą"},
 	{"1", uint64(1)}, {"0", uint64(0)}, {"-2", int64(-2)}, {"1.5", 1.5}, {"true", true}, {"false", false}, {"null", nil},
 }
 
